@@ -651,3 +651,643 @@ Theorem none_only_after_timeout :
     qsched s = [] -> 0 <= t ->
     send find_key th (Some t) s sc = (s', sc', ONone) -> now s + t <= now s'.
 Proof. exact none_not_early. Qed.
+
+(* ========================================================================== *)
+(* Further theorems over ALL states of the model (hence after all histories).   *)
+(* ========================================================================== *)
+
+(* ---- the scheduled events an environment step / a script adds ---------------- *)
+Definition sched_of (e : estep) : list (Z * N) := match e with Sched w id => [(w, id)] | _ => [] end.
+(* (w, id) is scheduled by a step of the script *)
+Definition sched_in (sc : list estep) (q : Z * N) : Prop := In (Sched (fst q) (snd q)) sc.
+
+Lemma apply_env_qsched : forall e s, qsched (apply_env e s) = qsched s ++ sched_of e.
+Proof. intros e s. destruct e; cbn; now rewrite ?app_nil_r. Qed.
+
+Lemma select_run_qsched : forall sc rem tc s s' sc' r,
+  select_run rem tc s sc = (s', sc', r) ->
+  exists extra, qsched s' = qsched s ++ extra /\ (forall q, In q extra -> sched_in sc q) /\
+                (forall q, sched_in sc' q -> sched_in sc q).
+Proof.
+  induction sc as [|e sc IH]; intros rem tc s s' sc' r E; cbn [select_run] in E.
+  - exists []. rewrite app_nil_r.
+    destruct (first_ready s); [|destruct rem]; injection E as <- <- _; repeat split; auto; intros q [].
+  - destruct (first_ready s).
+    { injection E as <- <- _. exists []. rewrite app_nil_r. repeat split; auto. intros q []. }
+    assert (Hgen : forall s0, qsched s0 = qsched s ++ sched_of e ->
+              select_run rem tc s0 sc = (s', sc', r) ->
+              exists extra, qsched s' = qsched s ++ extra /\ (forall q, In q extra -> sched_in (e :: sc) q) /\
+                            (forall q, sched_in sc' q -> sched_in (e :: sc) q)).
+    { intros s0 Hq E'. apply IH in E'. destruct E' as (extra & H1 & H2 & H3).
+      exists (sched_of e ++ extra). rewrite H1, Hq, app_assoc. split; [reflexivity|]. split.
+      - intros q Hin. apply in_app_or in Hin. destruct Hin as [Hin|Hin].
+        + destruct e; cbn in Hin; try contradiction. destruct Hin as [<-|[]]. left. reflexivity.
+        + right. now apply H2.
+      - intros q Hin. right. now apply H3. }
+    destruct e; try (now apply (Hgen _ (apply_env_qsched _ s) E)).
+    destruct rem as [r0|].
+    + destruct (tc + r0 <=? now s + Z.max 0 d).
+      * injection E as <- <- _. exists []. cbn. rewrite app_nil_r. split; [reflexivity|]. split; [intros q []|].
+        intros q [Hq|Hq]; [discriminate|right; exact Hq].
+      * apply (Hgen (set_now (now s + Z.max 0 d) s)); [cbn; now rewrite app_nil_r|exact E].
+    + apply (Hgen (set_now (now s + Z.max 0 d) s)); [cbn; now rewrite app_nil_r|exact E].
+Qed.
+
+Lemma wait_loop_qsched : forall old fuel t0 tmo rem s sc s' sc' w,
+  wait_loop old fuel t0 tmo rem s sc = (s', sc', w) ->
+  exists extra, qsched s' = qsched s ++ extra /\ (forall q, In q extra -> sched_in sc q).
+Proof.
+  induction fuel as [|fuel IH]; intros t0 tmo rem s sc s' sc' w E; cbn [wait_loop] in E.
+  - injection E as <- _ _. exists []. rewrite app_nil_r. split; [reflexivity|intros q []].
+  - destruct (select_run rem (now s) s sc) as [[s1 sc1] r] eqn:ES.
+    apply select_run_qsched in ES. destruct ES as (ex1 & H1 & H2 & H3).
+    assert (Hdone : s' = s1 \/ (exists v, s' = set_sigints v (set_wake (tl (wake s1)) s1)) \/
+                    (exists v i, s' = set_qint v (set_pipes (drain i (pipes s1)) s1)) ->
+              exists extra, qsched s' = qsched s ++ extra /\ (forall q, In q extra -> sched_in sc q)).
+    { intros [->|[[v ->]|[v [i ->]]]]; exists ex1; (split; [exact H1|exact H2]). }
+    assert (Hrec : forall t0' tmo' rem' s2, qsched s2 = qsched s1 ->
+              wait_loop old fuel t0' tmo' rem' s2 sc1 = (s', sc', w) ->
+              exists extra, qsched s' = qsched s ++ extra /\ (forall q, In q extra -> sched_in sc q)).
+    { intros t0' tmo' rem' s2 Hq E'. apply IH in E'. destruct E' as (ex2 & G1 & G2).
+      exists (ex1 ++ ex2). rewrite G1, Hq, H1, app_assoc. split; [reflexivity|].
+      intros q Hin. apply in_app_or in Hin. destruct Hin as [Hin|Hin]; [now apply H2|]. apply H3. now apply G2. }
+    destruct r as [[[| |i]|]|].
+    + injection E as <- _ _. apply Hdone. now left.
+    + destruct (wake s1) as [|b w'] eqn:EW; [injection E as <- _ _; apply Hdone; now left|].
+      destruct (b =? sigint_no)%N.
+      * destruct (pop_last (sigints (set_wake w' s1))) as [[k rest]|].
+        -- injection E as <- _ _. apply Hdone. right. left. exists rest. reflexivity.
+        -- eapply Hrec; [|exact E]. reflexivity.
+      * eapply Hrec; [|exact E]. reflexivity.
+    + destruct (qint (set_pipes (drain i (pipes s1)) s1)) as [|e q'] eqn:EQ.
+      * eapply Hrec; [|exact E]. reflexivity.
+      * injection E as <- _ _. apply Hdone. right. right. exists q', i. reflexivity.
+    + injection E as <- _ _. apply Hdone. now left.
+    + injection E as <- _ _. apply Hdone. now left.
+Qed.
+
+(* a select that finds stdin readable returns at once: no step of the script is
+   consumed, no clock time passes *)
+Lemma wait_loop_stdin : forall old fuel t0 tmo rem s sc,
+  kq s <> [] -> wait_loop old (S fuel) t0 tmo rem s sc = (s, sc, WReady true).
+Proof.
+  intros old fuel t0 tmo rem s sc Hk. cbn [wait_loop].
+  assert (ES : select_run rem (now s) s sc = (s, sc, Some (Some FdStdin))).
+  { assert (HF : first_ready s = Some FdStdin) by (unfold first_ready; destruct (kq s); [contradiction|reflexivity]).
+    destruct sc; cbn [select_run]; now rewrite HF. }
+  now rewrite ES.
+Qed.
+
+Lemma read_size_pos : (0 < read_size_nat)%nat.
+Proof. unfold read_size_nat. assert (H : read_size <> 0%N) by (vm_compute; discriminate). lia. Qed.
+
+Lemma max_keypress_pos : (0 < max_keypress_size)%nat.
+Proof. vm_compute. lia. Qed.
+
+Lemma len_lt_nil : forall {A} n, (0 < n)%nat -> @len_lt A [] n = true.
+Proof. intros A [|n] H; [lia|reflexivity]. Qed.
+
+Section Decoder2.
+Variable find_key : list N -> fk.
+
+(* ---- _send and the tail of after_wait, cut into named pieces ------------------ *)
+Definition presort (s : st) : st :=
+  match qsched s with [] => s | _ => set_qsched (sort_sched (qsched s)) s end.
+
+Definition send_tail (old : bool) (th tuc whn : option Z) (s : st) (script : list estep)
+  : st * list estep * outcome :=
+  match find_key (unproc s) with
+  | FkKey k used rest => (set_unproc rest s, script, OKey k used)
+  | FkRaise e used rest => (set_unproc rest s, script, ORaise e used)
+  | FkNone =>
+      let '(s1, sc1, w) := wait_loop old (wait_fuel s script) (now s) tuc tuc s script in
+      match w with
+      | WEvent o => (s1, sc1, o)
+      | WBlocked => (s1, sc1, OBlocked)
+      | WFuel => (s1, sc1, OFuel)
+      | WReady b => let '(s2, o) := after_wait find_key th whn b s1 in (s2, sc1, o)
+      end
+  end.
+
+Definition tuc_of (timeout : option Z) (w nw : Z) : option Z :=
+  Some (Z.min (Z.max 0 (w - nw)) (match timeout with Some t => t | None => sys_maxsize end)).
+
+Lemma send_gen_eq : forall old th timeout s script,
+  send_gen find_key old th timeout s script =
+  match pop_last (sigints s) with
+  | Some (k, rest) => (set_sigints rest s, script, OSigint k)
+  | None =>
+  match qev s with
+  | e :: q' => (set_qev q' s, script, OEvent SrcEv e)
+  | [] =>
+  match qint s with
+  | e :: q' => (set_qint q' s, script, OEvent SrcInt e)
+  | [] =>
+  match qsched (presort s) with
+  | [] => send_tail old th timeout None (presort s) script
+  | (w, e) :: q' =>
+      if w <? now (presort s) then (set_qsched q' (presort s), script, OSched w e)
+      else send_tail old th (tuc_of timeout w (now (presort s))) (Some w) (presort s) script
+  end end end end.
+Proof.
+  intros old th timeout s script. unfold send_gen, send_tail, presort, tuc_of.
+  destruct (pop_last (sigints s)) as [[k rest]|]; [reflexivity|].
+  destruct (qev s); [|reflexivity]. destruct (qint s); [|reflexivity].
+  cbv zeta.
+  destruct (qsched (match qsched s with [] => s | _ :: _ => set_qsched (sort_sched (qsched s)) s end)) as [|[w e] q'];
+    [reflexivity|].
+  destruct (w <? _); reflexivity.
+Qed.
+
+Definition after_wait_main (th : option Z) (ready : bool) (s : st) : st * outcome :=
+  if negb ready then (s, ONone)
+  else
+    let '(n, s1) := nb_read s in
+    if Nat.eqb n 0 then (s1, ONone)
+    else
+      if match th with Some t => t <? Z.of_nat n | None => false end
+      then paste_loop find_key (S (length (unproc s1) + length (kq s1))) [] s1
+      else match find_key (unproc s1) with
+           | FkKey k used rest => (set_unproc rest s1, OKey k used)
+           | FkNone => (s1, ORaise AssertionError [])
+           | FkRaise e used rest => (set_unproc rest s1, ORaise e used)
+           end.
+
+Lemma after_wait_eq : forall th whn ready s,
+  after_wait find_key th whn ready s =
+  match qsched s with
+  | [] => after_wait_main th ready s
+  | (w0, e0) :: q' =>
+      match whn with
+      | None => (s, ORaise OtherError [])
+      | Some w => if w <? now s then (set_qsched q' s, OSched w0 e0) else after_wait_main th ready s
+      end
+  end.
+Proof.
+  intros th whn ready s. unfold after_wait, after_wait_main.
+  destruct (qsched s) as [|[w0 e0] q']; [reflexivity|]. destruct whn as [w|]; [|reflexivity].
+  destruct (w <? now s); reflexivity.
+Qed.
+
+Lemma presort_fields : forall s,
+  (unproc (presort s), qev (presort s), qint (presort s), sigints (presort s), wake (presort s),
+   pipes (presort s), kq (presort s), now (presort s))
+  = (unproc s, qev s, qint s, sigints s, wake s, pipes s, kq s, now s) /\
+  qsched (presort s) = sort_sched (qsched s).
+Proof. intro s. unfold presort. destruct (qsched s) eqn:E; [rewrite E|]; split; reflexivity. Qed.
+
+(* what the tail of after_wait can return: never an event *)
+Lemma after_wait_main_kind : forall th ready s,
+  match snd (after_wait_main th ready s) with
+  | ONone | OPaste _ | OKey _ _ | ORaise _ _ | OFuel => True
+  | _ => False
+  end.
+Proof.
+  intros th ready s. unfold after_wait_main. destruct (negb ready); [exact I|].
+  destruct (nb_read s) as [n s1]. destruct (Nat.eqb n 0); [exact I|].
+  destruct (match th with Some t => t <? Z.of_nat n | None => false end).
+  - pose proof (paste_loop_kind find_key (S (length (unproc s1) + length (kq s1))) [] s1) as HK.
+    destruct (snd (paste_loop find_key _ [] s1)); auto.
+  - destruct (find_key (unproc s1)); exact I.
+Qed.
+
+(* ---- (a) scheduled events: never before their time, earliest first ------------- *)
+Lemma after_wait_sched : forall th whn ready s s' w id,
+  after_wait find_key th whn ready s = (s', OSched w id) ->
+  exists w1 q', whn = Some w1 /\ w1 < now s /\ qsched s = (w, id) :: q' /\ s' = set_qsched q' s.
+Proof.
+  intros th whn ready s s' w id E. rewrite after_wait_eq in E.
+  pose proof (after_wait_main_kind th ready s) as HK.
+  destruct (qsched s) as [|[w0 e0] q'].
+  - rewrite E in HK. contradiction.
+  - destruct whn as [w1|]; [|discriminate].
+    destruct (w1 <? now s) eqn:EW.
+    + injection E as <- <- <-. exists w1, q'. repeat split; auto. lia.
+    + rewrite E in HK. contradiction.
+Qed.
+
+Lemma send_tail_sched : forall old th tuc whn s sc s' sc' w id,
+  send_tail old th tuc whn s sc = (s', sc', OSched w id) ->
+  exists w1 extra, whn = Some w1 /\ w1 < now s' /\ qsched s ++ extra = (w, id) :: qsched s' /\
+                   (forall q, In q extra -> sched_in sc q).
+Proof.
+  intros old th tuc whn s sc s' sc' w id E. unfold send_tail in E.
+  destruct (find_key (unproc s)); try discriminate.
+  destruct (wait_loop old (wait_fuel s sc) (now s) tuc tuc s sc) as [[s1 sc1] wr] eqn:EW.
+  destruct wr as [o|b| |]; try discriminate.
+  - injection E as _ _ ->. apply wait_loop_event in EW. destruct EW as [[k Ek]|[e Ee]]; discriminate.
+  - destruct (after_wait find_key th whn b s1) as [s2 o2] eqn:EA. injection E as <- _ ->.
+    apply after_wait_sched in EA. destruct EA as (w1 & q' & -> & Hlt & Hq & ->).
+    apply wait_loop_qsched in EW. destruct EW as (extra & H1 & H2).
+    exists w1, extra. cbn. repeat split; auto. now rewrite <- H1.
+Qed.
+
+(* Whenever a request returns a scheduled event (w, id) -- from ANY state:
+   - its time has passed: w < clock at the return;
+   - every scheduled event still queued has a `when` >= w, except those that were
+     scheduled by the request's own script, i.e. while this request was blocked
+     ([extra]; empty when the script schedules nothing);
+   - among the events with the same `when` it is the one scheduled first
+     (per `when`, queue-before = (w, id) :: queue-after, in call order). *)
+Theorem sched_delivery : forall old th tmo s sc s' sc' w id,
+  send_gen find_key old th tmo s sc = (s', sc', OSched w id) ->
+  w < now s' /\
+  exists extra,
+    (forall q, In q extra -> sched_in sc q) /\
+    (forall q, In q (qsched s') -> w <= fst q \/ In q extra) /\
+    (forall w', filter (has_when w') (qsched s ++ extra) = filter (has_when w') ((w, id) :: qsched s')).
+Proof.
+  intros old th tmo s sc s' sc' w id E. rewrite send_gen_eq in E.
+  destruct (pop_last (sigints s)) as [[k rest]|]; [discriminate|].
+  destruct (qev s); [|discriminate]. destruct (qint s); [|discriminate].
+  destruct (presort_fields s) as [HF HQ]. injection HF as _ _ _ _ _ _ _ Hnow.
+  pose proof (sort_sched_sorted (qsched s)) as HS. rewrite <- HQ in HS.
+  assert (Hfil : forall w', filter (has_when w') (qsched s) = filter (has_when w') (qsched (presort s)))
+    by (intro w'; now rewrite HQ, filter_sort_sched).
+  destruct (qsched (presort s)) as [|[w1 e1] q'] eqn:EQ.
+  - apply send_tail_sched in E. destruct E as (w1 & extra & Hw & _). discriminate.
+  - inversion HS as [|p r Hmin Hr]; subst p r. cbn [fst] in Hmin.
+    destruct (w1 <? now (presort s)) eqn:ED.
+    + injection E as <- _ <- <-. split; [cbn; lia|]. exists []. split; [intros q []|]. split.
+      * intros q Hq. left. now apply Hmin.
+      * intro w'. rewrite app_nil_r. apply Hfil.
+    + apply send_tail_sched in E. destruct E as (w2 & extra & Hw & Hlt & Happ & Hin).
+      injection Hw as <-. rewrite EQ in Happ. cbn [app] in Happ. injection Happ as <- <- Hq'.
+      split; [exact Hlt|]. exists extra. split; [exact Hin|]. split.
+      * intros q Hq. rewrite <- Hq' in Hq. apply in_app_or in Hq. destruct Hq as [Hq|Hq]; [left; now apply Hmin|now right].
+      * intro w'. rewrite filter_app, Hfil, <- Hq'. cbn [filter]. destruct (has_when w' (w1, e1)); cbn [app]; now rewrite filter_app.
+Qed.
+
+(* the same when the script schedules nothing: everything still queued is later or equal *)
+Corollary sched_delivery_earliest : forall old th tmo s sc s' sc' w id,
+  (forall w0 id0, ~ In (Sched w0 id0) sc) ->
+  send_gen find_key old th tmo s sc = (s', sc', OSched w id) ->
+  w < now s' /\ (forall q, In q (qsched s') -> w <= fst q) /\
+  (forall w', filter (has_when w') (qsched s) = filter (has_when w') ((w, id) :: qsched s')).
+Proof.
+  intros old th tmo s sc s' sc' w id Hno E. apply sched_delivery in E.
+  destruct E as (Hlt & extra & H1 & H2 & H3).
+  assert (Hex : extra = []).
+  { destruct extra as [|q r]; [reflexivity|]. exfalso. apply (Hno (fst q) (snd q)). apply H1. now left. }
+  subst extra. split; [exact Hlt|]. split.
+  - intros q Hq. destruct (H2 q Hq) as [H|[]]. exact H.
+  - intro w'. specialize (H3 w'). now rewrite app_nil_r in H3.
+Qed.
+
+(* over ALL histories, from any state: in the trace, every scheduled event is
+   returned by a request that returns strictly after the event's time *)
+Theorem sched_never_early : forall h th s tr s',
+  run find_key th s h = (tr, s') ->
+  forall w id t0 t1, In (OSched w id, t0, t1) tr -> w < t1.
+Proof.
+  induction h as [|it h IH]; intros th s tr s' E w id t0 t1 Hin; cbn [run] in E.
+  - injection E as <- _. contradiction.
+  - destruct it as [e|t sc]; [eapply IH; eauto|].
+    destruct (send find_key th t s sc) as [[s1 lft] o] eqn:ES.
+    assert (Hhere : (o, now s, now s1) = (OSched w id, t0, t1) -> w < t1).
+    { intro Heq. injection Heq as -> _ <-. unfold send in ES. now apply sched_delivery in ES. }
+    assert (Hgo : (let '(tr0, s2) := run find_key th (apply_envs lft s1) h in ((o, now s, now s1) :: tr0, s2)) = (tr, s')
+                  -> w < t1).
+    { intro E'. destruct (run find_key th (apply_envs lft s1) h) as [tr0 s2] eqn:ER. injection E' as <- _.
+      destruct Hin as [Hin|Hin]; [now apply Hhere|]. eapply IH; eauto. }
+    destruct o; try (now apply Hgo).
+    injection E as <- _. destruct Hin as [Hin|[]]. discriminate.
+Qed.
+
+Hypothesis Hloss : fk_lossless find_key.
+Hypothesis Hprog : fk_progress find_key.
+
+(* ---- (b) something deliverable at the call: returned at once --------------------- *)
+Lemma nb_read_facts : forall s n s1, nb_read s = (n, s1) ->
+  n = Nat.min read_size_nat (length (kq s)) /\ unproc s1 = unproc s ++ firstn read_size_nat (kq s) /\
+  kq s1 = skipn read_size_nat (kq s) /\ now s1 = now s /\ qsched s1 = qsched s /\
+  (kq s <> [] -> n <> O).
+Proof.
+  intros s n s1 E.
+  assert (Hn : n = fst (nb_read s)) by now rewrite E.
+  assert (Hs : s1 = snd (nb_read s)) by now rewrite E.
+  clear E. subst n s1. unfold nb_read. cbn [fst snd]. rewrite firstn_length.
+  repeat split; try reflexivity. intro Hk. pose proof read_size_pos. destruct (kq s); [contradiction|]. cbn [length]. lia.
+Qed.
+
+Lemma after_wait_main_ready : forall th s s' o,
+  kq s <> [] -> after_wait_main th true s = (s', o) ->
+  now s' = now s /\ o <> ONone /\ o <> OBlocked /\ o <> OFuel.
+Proof.
+  intros th s s' o Hk E. unfold after_wait_main in E. cbn [negb] in E.
+  destruct (nb_read s) as [n s1] eqn:ER. apply nb_read_facts in ER.
+  destruct ER as (_ & _ & _ & Hnow & _ & Hn). specialize (Hn Hk).
+  destruct (Nat.eqb n 0) eqn:En; [apply Nat.eqb_eq in En; contradiction|].
+  destruct (match th with Some t => t <? Z.of_nat n | None => false end).
+  - pose proof (paste_loop_fuel find_key Hloss Hprog (S (length (unproc s1) + length (kq s1))) [] s1 ltac:(lia)) as HF.
+    pose proof (paste_loop_kind find_key (S (length (unproc s1) + length (kq s1))) [] s1) as HK.
+    rewrite E in HF, HK. cbn [snd] in HF, HK.
+    apply (paste_loop_bytes find_key Hloss) in E. destruct E as (_ & Eb & _).
+    injection Eb as _ _ _ _ _ _ _ _ _ Hn'. split; [lia|]. destruct o; try contradiction; repeat split; discriminate.
+  - destruct (find_key (unproc s1)); injection E as <- <-; cbn; repeat split; auto; discriminate.
+Qed.
+
+Lemma send_tail_at_once : forall old th tuc whn s sc s' sc' o,
+  unproc s <> [] \/ kq s <> [] ->
+  send_tail old th tuc whn s sc = (s', sc', o) ->
+  now s' = now s /\ sc' = sc /\ o <> ONone /\ o <> OBlocked /\ o <> OFuel.
+Proof.
+  intros old th tuc whn s sc s' sc' o Hd E. unfold send_tail in E.
+  pose proof (Hprog (unproc s)) as HP.
+  destruct (find_key (unproc s)) as [|k used rest|e used rest].
+  - destruct Hd as [Hd|Hk]; [contradiction|].
+    unfold wait_fuel in E. rewrite wait_loop_stdin in E by exact Hk.
+    destruct (after_wait find_key th whn true s) as [s2 o2] eqn:EA. injection E as <- <- <-.
+    rewrite after_wait_eq in EA.
+    assert (Hm : after_wait_main th true s = (s2, o2) ->
+                 now s2 = now s /\ sc = sc /\ o2 <> ONone /\ o2 <> OBlocked /\ o2 <> OFuel).
+    { intro Em. apply after_wait_main_ready in Em; [|exact Hk]. tauto. }
+    destruct (qsched s) as [|[w0 e0] q']; [now apply Hm|].
+    destruct whn as [w|].
+    + destruct (w <? now s); [|now apply Hm]. injection EA as <- <-. cbn. repeat split; discriminate.
+    + injection EA as <- <-. repeat split; discriminate.
+  - injection E as <- <- <-. cbn. repeat split; discriminate.
+  - injection E as <- <- <-. cbn. repeat split; discriminate.
+Qed.
+
+(* something is deliverable at the call: a SIGINT, a queued event, a queued
+   interrupting event, a scheduled event whose time has passed, buffered bytes
+   (the decoder never answers None on a non-empty buffer), bytes waiting in the kernel *)
+Definition deliverable_at_call (s : st) : Prop :=
+  sigints s <> [] \/ qev s <> [] \/ qint s <> [] \/
+  (exists q, In q (qsched s) /\ fst q < now s) \/ unproc s <> [] \/ kq s <> [].
+
+(* ... then the request returns something (not None, not blocked), the clock has
+   not moved, and not a single step of the environment script has been consumed *)
+Theorem deliverable_at_once : forall old th tmo s sc s' sc' o,
+  deliverable_at_call s -> send_gen find_key old th tmo s sc = (s', sc', o) ->
+  now s' = now s /\ sc' = sc /\ o <> ONone /\ o <> OBlocked /\ o <> OFuel.
+Proof.
+  intros old th tmo s sc s' sc' o Hd E. rewrite send_gen_eq in E.
+  pose proof (pop_last_spec (sigints s)) as HP.
+  destruct (pop_last (sigints s)) as [[k rest]|].
+  { injection E as <- <- <-. cbn. repeat split; discriminate. }
+  destruct (qev s) as [|e q1] eqn:EQ1. 2:{ injection E as <- <- <-. cbn. repeat split; discriminate. }
+  destruct (qint s) as [|e q1] eqn:EQ2. 2:{ injection E as <- <- <-. cbn. repeat split; discriminate. }
+  destruct Hd as [Hd|[Hd|[Hd|Hd]]]; [contradiction|contradiction|contradiction|].
+  destruct (presort_fields s) as [HF HQ]. injection HF as Hu _ _ _ _ _ Hk Hnow.
+  pose proof (sort_sched_sorted (qsched s)) as HS. rewrite <- HQ in HS.
+  pose proof (sort_sched_perm (qsched s)) as HPm. rewrite <- HQ in HPm.
+  assert (Htail : forall tuc whn, unproc s <> [] \/ kq s <> [] ->
+            send_tail old th tuc whn (presort s) sc = (s', sc', o) ->
+            now s' = now s /\ sc' = sc /\ o <> ONone /\ o <> OBlocked /\ o <> OFuel).
+  { intros tuc whn Hd' E'. rewrite <- Hnow. eapply send_tail_at_once; [|exact E']. now rewrite Hu, Hk. }
+  destruct (qsched (presort s)) as [|[w1 e1] q'] eqn:EQ.
+  - destruct Hd as [(q & Hin & _)|Hd]; [|now apply (Htail _ _ Hd E)].
+    apply (Permutation_in _ (Permutation_sym HPm)) in Hin. contradiction.
+  - destruct (w1 <? now (presort s)) eqn:ED.
+    + injection E as <- <- <-. cbn. rewrite Hnow. repeat split; discriminate.
+    + destruct Hd as [(q & Hin & Hlt)|Hd]; [|now apply (Htail _ _ Hd E)].
+      exfalso. apply (Permutation_in _ (Permutation_sym HPm)) in Hin.
+      inversion HS as [|p r Hmin Hr]; subst p r. cbn [fst] in Hmin.
+      destruct Hin as [<-|Hin]; [cbn [fst] in Hlt; lia|]. specialize (Hmin q Hin). lia.
+Qed.
+
+(* ---- (c) the paste event ------------------------------------------------------------ *)
+(* (k, used) is an answer of the decoder: on some buffer starting with [used]
+   it popped exactly [used] and named it k *)
+Definition decoded_key (ku : key * list N) : Prop :=
+  exists buf rest, find_key buf = FkKey (fst ku) (snd ku) rest.
+Definition decoder_raised (e : exn) : Prop :=
+  exists buf used rest, find_key buf = FkRaise e used rest.
+
+(* the paste loop stops only when both the buffer and the kernel queue are empty *)
+Lemma paste_loop_all : forall fuel acc s s' ks,
+  paste_loop find_key fuel acc s = (s', OPaste ks) ->
+  unproc s' = [] /\ kq s' = [] /\ exists ks', ks = rev acc ++ ks' /\ Forall decoded_key ks'.
+Proof.
+  induction fuel as [|fuel IH]; intros acc s s' ks E; cbn [paste_loop] in E; [discriminate|].
+  set (s1 := if len_lt (unproc s) max_keypress_size then snd (nb_read s) else s) in *.
+  pose proof (Hprog (unproc s1)) as HP.
+  destruct (find_key (unproc s1)) as [|k used rest|e used rest] eqn:EF; [| |discriminate].
+  - injection E as <- <-.
+    assert (H0 : unproc s1 = [] /\ kq s1 = []).
+    { subst s1. destruct (len_lt (unproc s) max_keypress_size) eqn:EL.
+      - destruct (nb_read s) as [n s2] eqn:ER. apply nb_read_facts in ER.
+        destruct ER as (_ & Hu & Hk & _). cbn [snd] in *. rewrite Hu in HP.
+        apply app_eq_nil in HP. destruct HP as [HP1 HP2].
+        assert (Hkq : kq s = []).
+        { pose proof read_size_pos. destruct (kq s); [reflexivity|].
+          destruct read_size_nat; [lia|discriminate]. }
+        rewrite Hu, Hk, HP1, Hkq. split; [reflexivity|]. now rewrite skipn_nil.
+      - rewrite HP in EL. rewrite (len_lt_nil _ max_keypress_pos) in EL. discriminate. }
+    destruct H0 as [H1 H2]. split; [exact H1|]. split; [exact H2|].
+    exists []. rewrite app_nil_r. split; [reflexivity|constructor].
+  - apply IH in E. destruct E as (U & K & ks' & -> & F). split; [exact U|]. split; [exact K|].
+    exists ((k, used) :: ks'). cbn [rev]. rewrite <- app_assoc. split; [reflexivity|].
+    constructor; [|exact F]. exists (unproc s1), rest. exact EF.
+Qed.
+
+Lemma paste_loop_raise : forall fuel acc s s' e d,
+  paste_loop find_key fuel acc s = (s', ORaise e d) -> decoder_raised e.
+Proof.
+  induction fuel as [|fuel IH]; intros acc s s' e d E; cbn [paste_loop] in E; [discriminate|].
+  set (s1 := if len_lt (unproc s) max_keypress_size then snd (nb_read s) else s) in *.
+  destruct (find_key (unproc s1)) as [|k used rest|e' used rest] eqn:EF; [discriminate| |].
+  - now apply IH in E.
+  - injection E as _ <- _. exists (unproc s1), used, rest. exact EF.
+Qed.
+
+(* what a read does when nothing else is deliverable: [m] bytes are waiting in
+   the kernel, the read takes n = min(READ_SIZE, m) of them *)
+Lemma after_wait_main_read : forall th s s' o,
+  unproc s = [] -> kq s <> [] -> after_wait_main th true s = (s', o) ->
+  let n := Nat.min read_size_nat (length (kq s)) in
+  now s' = now s /\
+  ((exists e d, o = ORaise e d /\ decoder_raised e) \/
+   if match th with Some t => t <? Z.of_nat n | None => false end
+   then exists ks, o = OPaste ks /\ concat (map snd ks) = kq s /\ Forall decoded_key ks /\
+                   unproc s' = [] /\ kq s' = []
+   else exists k used, o = OKey k used /\ decoded_key (k, used) /\ used <> [] /\
+                       used ++ unproc s' ++ kq s' = kq s).
+Proof.
+  intros th s s' o Hu Hk E n0. unfold after_wait_main in E. cbn [negb] in E.
+  destruct (nb_read s) as [n s1] eqn:ER. apply nb_read_facts in ER.
+  destruct ER as (Hn & Hu1 & Hk1 & Hnow & _ & Hn0). specialize (Hn0 Hk). rewrite Hu in Hu1. cbn [app] in Hu1.
+  assert (HV : unproc s1 ++ kq s1 = kq s) by (rewrite Hu1, Hk1; apply firstn_skipn).
+  destruct (Nat.eqb n 0) eqn:En; [apply Nat.eqb_eq in En; contradiction|].
+  subst n0. rewrite <- Hn.
+  destruct (match th with Some t => t <? Z.of_nat n | None => false end).
+  - pose proof (paste_loop_fuel find_key Hloss Hprog (S (length (unproc s1) + length (kq s1))) [] s1 ltac:(lia)) as HF.
+    pose proof (paste_loop_kind find_key (S (length (unproc s1) + length (kq s1))) [] s1) as HK.
+    rewrite E in HF, HK. cbn [snd] in HF, HK.
+    pose proof (paste_loop_bytes find_key Hloss _ _ _ _ _ E) as (Ea & Eb & _).
+    injection Eb as _ _ _ _ _ _ _ _ _ Hn'. split; [lia|].
+    destruct o as [| ks | | | | | e d | |]; try contradiction.
+    + right. destruct Ea as [Ea|Ea]; [discriminate|].
+      apply paste_loop_all in E. destruct E as (U & K & ks' & Eks & F). cbn [rev app] in Eks. subst ks'.
+      exists ks. rewrite U, K in Ea. unfold d_consumed in Ea. cbn in Ea. rewrite !app_nil_r in Ea.
+      repeat split; auto. now rewrite Ea, HV.
+    + left. exists e, d. split; [reflexivity|]. eapply paste_loop_raise; exact E.
+  - pose proof (Hloss (unproc s1)) as HL. pose proof (Hprog (unproc s1)) as HP.
+    destruct (find_key (unproc s1)) as [|k used rest|e used rest] eqn:EF; injection E as <- <-; (split; [exact Hnow|]).
+    + exfalso. rewrite HP in Hu1. symmetry in Hu1.
+      pose proof read_size_pos. destruct (kq s); [contradiction|]. destruct read_size_nat; [lia|discriminate].
+    + right. exists k, used. repeat split; auto.
+      * exists (unproc s1), rest. exact EF.
+      * cbn. now rewrite app_assoc, HL.
+    + left. exists e, used. split; [reflexivity|]. exists (unproc s1), used, rest. exact EF.
+Qed.
+
+(* The paste clause, for a request made in ANY state in which nothing but a
+   burst of bytes waiting in the kernel is deliverable: no SIGINT, no queued
+   event, no scheduled event that is due, nothing buffered.  The request returns
+   at once; unless the decoder raises (known findings), then
+   - if the one read it makes is larger than paste_threshold: ONE paste event, whose
+     keypresses are decoder answers (each the name of exactly its own bytes), whose
+     bytes in order are ALL the bytes that were waiting (also those beyond
+     READ_SIZE: the loop refills), and nothing is left in the buffers;
+   - otherwise (or with paste_threshold None): ONE keypress, the rest stays queued. *)
+Theorem read_burst : forall old th tmo s sc s' sc' o,
+  sigints s = [] -> qev s = [] -> qint s = [] -> (forall q, In q (qsched s) -> now s <= fst q) ->
+  unproc s = [] -> kq s <> [] ->
+  send_gen find_key old th tmo s sc = (s', sc', o) ->
+  let n := Nat.min read_size_nat (length (kq s)) in
+  now s' = now s /\ sc' = sc /\
+  ((exists e d, o = ORaise e d /\ decoder_raised e) \/
+   if match th with Some t => t <? Z.of_nat n | None => false end
+   then exists ks, o = OPaste ks /\ concat (map snd ks) = kq s /\ Forall decoded_key ks /\
+                   unproc s' = [] /\ kq s' = []
+   else exists k used, o = OKey k used /\ decoded_key (k, used) /\ used <> [] /\
+                       used ++ unproc s' ++ kq s' = kq s).
+Proof.
+  intros old th tmo s sc s' sc' o Hsig Hev Hint Hnd Hu Hk E n. rewrite send_gen_eq in E.
+  rewrite Hsig, Hev, Hint in E. cbn [pop_last] in E.
+  destruct (presort_fields s) as [HF HQ]. injection HF as Hu0 _ _ _ _ _ Hk0 Hnow.
+  pose proof (sort_sched_perm (qsched s)) as HPm. rewrite <- HQ in HPm.
+  assert (Htail : forall tuc whn,
+            match whn with None => qsched (presort s) = [] | Some w => now s <= w end ->
+            send_tail old th tuc whn (presort s) sc = (s', sc', o) ->
+            (after_wait_main th true (presort s) = (s', o) /\ sc' = sc) \/
+            (now s' = now s /\ sc' = sc /\ exists e d, o = ORaise e d /\ decoder_raised e)).
+  { intros tuc whn Hw E'. unfold send_tail in E'. rewrite Hu0, Hu in E'.
+    pose proof (Hprog []) as HP. pose proof (Hloss []) as HL.
+    destruct (find_key []) as [|k used rest|e used rest] eqn:EF.
+    - unfold wait_fuel in E'. rewrite wait_loop_stdin in E' by (now rewrite Hk0).
+      destruct (after_wait find_key th whn true (presort s)) as [s2 o2] eqn:EA. injection E' as <- <- <-.
+      rewrite after_wait_eq in EA. left. split; [|reflexivity].
+      destruct (qsched (presort s)) as [|[w0 e0] q']; [exact EA|].
+      destruct whn as [w|]; [|discriminate]. rewrite Hnow in EA.
+      destruct (w <? now s) eqn:EW; [lia|exact EA].
+    - exfalso. apply app_eq_nil in HL. destruct HL as [-> _]. now apply HP.
+    - (* a decoder that raises on the empty buffer *) 
+      right. injection E' as <- <- <-. cbn. rewrite Hnow. repeat split.
+      exists e, used. split; [reflexivity|]. exists [], used, rest. exact EF. }
+  assert (Hfin : (after_wait_main th true (presort s) = (s', o) /\ sc' = sc) \/
+            (now s' = now s /\ sc' = sc /\ exists e d, o = ORaise e d /\ decoder_raised e) ->
+     now s' = now s /\ sc' = sc /\
+     ((exists e d, o = ORaise e d /\ decoder_raised e) \/
+      if match th with Some t => t <? Z.of_nat n | None => false end
+      then exists ks, o = OPaste ks /\ concat (map snd ks) = kq s /\ Forall decoded_key ks /\
+                      unproc s' = [] /\ kq s' = []
+      else exists k used, o = OKey k used /\ decoded_key (k, used) /\ used <> [] /\
+                          used ++ unproc s' ++ kq s' = kq s)).
+  { intros [[Em ->]|(H1 & H2 & H3)]; [|auto]. apply after_wait_main_read in Em; [|now rewrite Hu0|now rewrite Hk0].
+    rewrite Hk0, Hnow in Em. destruct Em as [Em1 Em2]. auto. }
+  destruct (qsched (presort s)) as [|[w1 e1] q'] eqn:EQ.
+  - apply Hfin. eapply Htail; [|exact E]. reflexivity.
+  - assert (Hw1 : now s <= w1).
+    { apply (Hnd (w1, e1)). apply (Permutation_in _ HPm). now left. }
+    rewrite Hnow in E. destruct (w1 <? now s) eqn:ED; [lia|].
+    apply Hfin. eapply Htail; [|exact E]. exact Hw1.
+Qed.
+
+(* ---- where an exception can come from --------------------------------------------- *)
+Lemma after_wait_main_raise : forall th ready s s' e d,
+  after_wait_main th ready s = (s', ORaise e d) -> decoder_raised e.
+Proof.
+  intros th ready s s' e d E. unfold after_wait_main in E.
+  destruct (negb ready); [discriminate|].
+  destruct (nb_read s) as [n s1] eqn:ER. apply nb_read_facts in ER.
+  destruct ER as (Hn & Hu1 & _).
+  destruct (Nat.eqb n 0) eqn:En; [discriminate|]. apply Nat.eqb_neq in En.
+  destruct (match th with Some t => t <? Z.of_nat n | None => false end).
+  - eapply paste_loop_raise; exact E.
+  - pose proof (Hprog (unproc s1)) as HP.
+    destruct (find_key (unproc s1)) as [|k used rest|e' used rest] eqn:EF.
+    + exfalso. rewrite Hu1 in HP. apply app_eq_nil in HP. destruct HP as [_ HP].
+      destruct (kq s); [cbn in Hn; lia|]. pose proof read_size_pos. destruct read_size_nat; [lia|discriminate].
+    + discriminate.
+    + injection E as _ <- _. exists (unproc s1), used, rest. exact EF.
+Qed.
+
+(* A request raises only when the decoder raised on the buffer, or -- the
+   UnboundLocalError of _send (`when` never assigned) -- when nothing was
+   scheduled at the call and an event got scheduled by the script, i.e. from
+   another thread while this request was blocked (DESIGN section 6: outside the
+   property as read; the model shows it, the theorem pins it down). *)
+Theorem raise_origin : forall old th tmo s sc s' sc' e d,
+  send_gen find_key old th tmo s sc = (s', sc', ORaise e d) ->
+  decoder_raised e \/
+  (e = OtherError /\ d = [] /\ qsched s = [] /\ exists q, sched_in sc q).
+Proof.
+  intros old th tmo s sc s' sc' e d E. rewrite send_gen_eq in E.
+  destruct (pop_last (sigints s)) as [[k rest]|]; [discriminate|].
+  destruct (qev s); [|discriminate]. destruct (qint s); [|discriminate].
+  destruct (presort_fields s) as [_ HQ].
+  pose proof (sort_sched_perm (qsched s)) as HPm. rewrite <- HQ in HPm.
+  assert (Htail : forall tuc whn, (whn = None -> qsched (presort s) = []) ->
+            send_tail old th tuc whn (presort s) sc = (s', sc', ORaise e d) ->
+            decoder_raised e \/ (e = OtherError /\ d = [] /\ qsched s = [] /\ exists q, sched_in sc q)).
+  { intros tuc whn Hw E'. unfold send_tail in E'.
+    destruct (find_key (unproc (presort s))) as [|k used rest|e' used rest] eqn:EF; [|discriminate|].
+    - destruct (wait_loop old (wait_fuel (presort s) sc) (now (presort s)) tuc tuc (presort s) sc)
+        as [[s1 sc1] wr] eqn:EW.
+      destruct wr as [o|b| |]; try discriminate.
+      + injection E' as _ _ ->. apply wait_loop_event in EW. destruct EW as [[k Ek]|[e0 Ee]]; discriminate.
+      + destruct (after_wait find_key th whn b s1) as [s2 o2] eqn:EA. injection E' as <- _ ->.
+        rewrite after_wait_eq in EA.
+        apply wait_loop_qsched in EW. destruct EW as (extra & H1 & H2).
+        destruct (qsched s1) as [|[w0 e0] q'] eqn:EQ1; [left; eapply after_wait_main_raise; exact EA|].
+        destruct whn as [w|].
+        * destruct (w <? now s1); [discriminate|]. left. eapply after_wait_main_raise; exact EA.
+        * injection EA as _ <- <-. right. rewrite (Hw eq_refl) in H1, HPm. cbn [app] in H1.
+          apply Permutation_nil in HPm. repeat split; auto.
+          exists (w0, e0). apply H2. rewrite <- H1. now left.
+    - injection E' as _ _ <- _. left. exists (unproc (presort s)), used, rest. exact EF. }
+  destruct (qsched (presort s)) as [|[w1 e1] q'] eqn:EQ.
+  - eapply Htail; [|exact E]. reflexivity.
+  - destruct (w1 <? now (presort s)); [discriminate|]. eapply Htail; [|exact E]. discriminate.
+Qed.
+End Decoder2.
+
+(* ---- non-vacuity of the theorems above (toy decoder) ------------------------------- *)
+Example sched_delivery_nonvacuous :
+  let s := apply_envs [Sched 5 8; Sched 3 9; Sched 3 10; Tick 6] (init 0) in
+  let '(s', _, o) := send toy_fk None (Some 0) s [] in
+  o = OSched 3 9 /\ qsched s' = [(3, 10%N); (5, 8%N)] /\ now s' = 6.
+Proof. vm_compute. auto. Qed.
+
+(* an event scheduled while the request is blocked (here: a stale signal
+   re-arms the select, the clock passes the first event's time, then a byte
+   arrives) may stay queued behind a later one: the [extra] of sched_delivery *)
+Example sched_delivery_extra_witness :
+  let s := apply_envs [Sched 10 1] (init 0) in
+  let '(s', _, o) := send toy_fk None None s [Tick 9; Signal 1; Sched 5 2; Tick 6; Arrive [97%N]] in
+  o = OSched 10 1 /\ qsched s' = [(5, 2%N)] /\ now s' = 15.
+Proof. vm_compute. auto. Qed.
+
+Example deliverable_at_once_nonvacuous :
+  let s := apply_envs [Arrive [97%N]; Tick 2] (init 0) in
+  deliverable_at_call s /\
+  let '(s', sc', o) := send toy_fk None None s [Tick 5] in
+  o = OKey [97%N] [97%N] /\ now s' = 2 /\ sc' = [Tick 5].
+Proof. split; [right; right; right; right; right; discriminate|vm_compute; auto]. Qed.
+
+Example read_burst_nonvacuous :
+  let s := apply_envs [Arrive [97; 98; 99]%N] (init 0) in
+  let '(s', _, o) := send toy_fk (Some 1) None s [] in
+  o = OPaste [([97], [97]); ([98], [98]); ([99], [99])]%N /\ unproc s' = [] /\ kq s' = [].
+Proof. vm_compute. auto. Qed.
+
+(* the UnboundLocalError of raise_origin is real in the model: nothing scheduled at
+   the call, an event scheduled while the request is blocked, then a wake-up *)
+Example raise_origin_unbound_witness :
+  let '(_, _, o) := send toy_fk None None (init 0) [Sched 5 1; Arrive [97%N]] in
+  o = ORaise OtherError [].
+Proof. vm_compute. auto. Qed.
